@@ -41,7 +41,7 @@ shared lock, `cond.Wait`. A method that loses its lock (the pre-fix `NotFlushedP
   sections, its last one is a `tryAcquire`), `SyncedPool.Initialize/Close` (life-cycle, by caller
   contract — they do touch `wrappers` without the lock), `EventsBuffer.IsBuffered/Total`
   (delegate to the cache and can observe it between the steps of a `PushEvent`/`Clear`),
-  `Flushable.Stat/Compact/NewBatch`; goroutines started internally (`time.AfterFunc` in `Acquire`).
+  `Flushable.NewBatch` (touches no field); goroutines started internally (`time.AfterFunc` in `Acquire`).
 -/
 namespace C28
 open Model.LockAtomic
@@ -163,6 +163,7 @@ theorem core_methods_claimed :
     (claimed "Flushable" "Put" && claimed "Flushable" "Get" && claimed "Flushable" "Has" &&
      claimed "Flushable" "Delete" && claimed "Flushable" "Flush" && claimed "Flushable" "DropNotFlushed" &&
      claimed "Flushable" "NotFlushedPairs" && claimed "Flushable" "NotFlushedSizeEst" &&
+     claimed "Flushable" "Stat" && claimed "Flushable" "Compact" &&
      claimed "SyncedPool" "OpenDB" && claimed "SyncedPool" "Flush" && claimed "SyncedPool" "NotFlushedSizeEst" &&
      claimed "SyncedPool" "Names" && claimed "SyncedPool" "GetUnderlying" &&
      claimed "Cache" "Add" && claimed "Cache" "Get" && claimed "Cache" "Contains" && claimed "Cache" "Remove" &&
